@@ -891,6 +891,66 @@ fn payload_shapes_conserve(out: &mut ShardOut, rng: &mut Rng) {
     }
 }
 
+
+/// The value type must not matter for which entry is kept: the same keys-only history on a
+/// cache with a zero-sized value type and on one with `u64` values must give the same results
+/// (variant and keys of every `PutResult`, hits and misses) and the same residency after every
+/// step. (The `u64` twin is what the reference-model runs of the same check drive.)
+fn zst_twin_run<A: caches::Cache<u32, ()>, B: caches::Cache<u32, u64>>(mut a: A, mut b: B, rng: &mut Rng, nkeys: u64, nops: u64, what: &str) -> Option<String> {
+    use caches::PutResult;
+    fn shape<V>(r: &PutResult<u32, V>) -> (u8, u32, u32) {
+        match r {
+            PutResult::Put => (0, 0, 0),
+            PutResult::Update(_) => (1, 0, 0),
+            PutResult::Evicted { key, .. } => (2, *key, 0),
+            PutResult::EvictedAndUpdate { evicted, .. } => (3, evicted.0, 0),
+        }
+    }
+    let mut log: Vec<String> = vec![];
+    for step in 0..nops {
+        let k = rng.below(nkeys) as u32;
+        let (x, y, name) = match rng.below(10) {
+            0..=4 => (shape(&a.put(k, ())), shape(&b.put(k, step)), "put"),
+            5..=7 => ((a.get(&k).is_some() as u8, 0, 0), (b.get(&k).is_some() as u8, 0, 0), "get"),
+            8 => ((a.get_mut(&k).is_some() as u8, 0, 0), (b.get_mut(&k).is_some() as u8, 0, 0), "get_mut"),
+            _ => ((a.remove(&k).is_some() as u8, 0, 0), (b.remove(&k).is_some() as u8, 0, 0), "remove"),
+        };
+        log.push(format!("{}({})", name, k));
+        let res_a: Vec<u32> = (0..nkeys as u32).filter(|q| a.contains(q)).collect();
+        let res_b: Vec<u32> = (0..nkeys as u32).filter(|q| b.contains(q)).collect();
+        if x != y || res_a != res_b || a.len() != b.len() {
+            let from = log.len().saturating_sub(25);
+            return Some(format!("{}: step {} {}({}): with () values -> {:?}, resident {:?}; with u64 values -> {:?}, resident {:?}; history tail: {}", what, step, name, k, x, res_a, y, res_b, log[from..].join(" ")));
+        }
+    }
+    None
+}
+
+fn zst_value_twins(out: &mut ShardOut, rng: &mut Rng, kind: Kind, histories: u64) {
+    use caches::{AdaptiveCache, RawLRU, SegmentedCache, TwoQueueCache};
+    for _ in 0..histories {
+        let cap = rng.range(1, 6) as usize;
+        let nkeys = cap as u64 + rng.range(1, 5);
+        let nops = rng.range(10, 80);
+        let r = guarded(|| match kind {
+            Kind::Lru => RawLRU::<u32, ()>::new(cap).ok().zip(RawLRU::<u32, u64>::new(cap).ok()).and_then(|(a, b)| zst_twin_run(a, b, rng, nkeys, nops, &format!("lru({})", cap))),
+            Kind::Slru => {
+                let pt = rng.range(1, 4) as usize;
+                SegmentedCache::<u32, ()>::new(cap, pt).ok().zip(SegmentedCache::<u32, u64>::new(cap, pt).ok()).and_then(|(a, b)| zst_twin_run(a, b, rng, nkeys + pt as u64, nops, &format!("slru({},{})", cap, pt)))
+            }
+            Kind::TwoQ => TwoQueueCache::<u32, ()>::new(cap + 1).ok().zip(TwoQueueCache::<u32, u64>::new(cap + 1).ok()).and_then(|(a, b)| zst_twin_run(a, b, rng, nkeys + 2, nops, &format!("twoq({})", cap + 1))),
+            Kind::Arc => AdaptiveCache::<u32, ()>::new(cap).ok().zip(AdaptiveCache::<u32, u64>::new(cap).ok()).and_then(|(a, b)| zst_twin_run(a, b, rng, nkeys + 2, nops, &format!("arc({})", cap))),
+            Kind::Wtlfu => None,
+        });
+        out.cov.monitored += nops;
+        out.cov.triples.insert(format!("zst-twin|{}|cap{}", kind.name(), cap));
+        if let Ok(Some(d)) = r {
+            out.add(simple_found(crate::engine::model_prop(kind), "zst-value-twin", d));
+            return;
+        }
+    }
+}
+
 /// the engine-based check of one property on one shard
 pub fn engine_suite(ctx: &Ctx) -> ShardOut {
     let mut out = ShardOut::default();
@@ -908,6 +968,11 @@ pub fn engine_suite(ctx: &Ctx) -> ShardOut {
     if ctx.prop == "C06" && !cfg!(miri) {
         let mut r = Rng::new(mix(ctx.seed, 0xC062) ^ ctx.shard);
         zst_value_order(&mut out, &mut r, 2000);
+    }
+    if matches!(ctx.prop.as_str(), "C06" | "C07" | "C08" | "C09") && !cfg!(miri) {
+        let mut r = Rng::new(mix(ctx.seed, 0xC0_25) ^ ctx.shard);
+        let kind = kinds_for(&ctx.prop)[0];
+        zst_value_twins(&mut out, &mut r, kind, 1500);
     }
     if ctx.prop == "C12" && ctx.shard == 0 {
         putresult_structural(&mut out);
